@@ -231,6 +231,16 @@ func (s *State) Conc(t *Term) (*Term, bool) {
 	return nil, false
 }
 
+func (s *State) concOr(t *Term) *Term {
+	if t == nil || t.IsConst() {
+		return t
+	}
+	if c, ok := s.eqs[t.ID]; ok {
+		return c
+	}
+	return t
+}
+
 func (s *State) Alloc(o *Object) ObjID {
 	id := s.next
 	s.next++
@@ -591,6 +601,11 @@ func mergeVal(g *Term, a, b Value) (Value, bool) {
 		if !ok || av.Bytes != bv.Bytes {
 			return nil, false
 		}
+		if keepGeometry && av.Bytes && (av.Off != bv.Off || av.Len != bv.Len) {
+			// raw-buffer harnesses: windows of different geometry stay on separate paths
+			// (merging would turn every later offset and length into an ite-term)
+			return nil, false
+		}
 		if av.Obj != bv.Obj {
 			// a nil/empty slice has no backing object: allow wildcard
 			if av.Obj == 0 {
@@ -610,6 +625,10 @@ func mergeVal(g *Term, a, b Value) (Value, bool) {
 			if av.Off != bv.Off || av.Len != bv.Len || av.Cap != bv.Cap {
 				return nil, false
 			}
+		} else if keepGeometry && (av.Off != bv.Off || av.Len != bv.Len) && av.Off.IsConst() && bv.Off.IsConst() && av.Len.IsConst() && bv.Len.IsConst() {
+			// raw-buffer harnesses: two windows with different CONCRETE geometry stay on
+			// separate paths (merging would turn every later offset into an ite-term)
+			return nil, false
 		}
 		return VSlice{Nil: Ite(g, av.Nil, bv.Nil), Obj: av.Obj, Off: Ite(g, av.Off, bv.Off), Len: Ite(g, av.Len, bv.Len), Cap: Ite(g, av.Cap, bv.Cap), Bytes: av.Bytes}, true
 	case VString:
@@ -775,6 +794,9 @@ type PanicInfo struct {
 }
 
 var mergeFail string
+
+// keepGeometry: see mergeVal/VSlice (set per harness by the "keepgeom" spec flag).
+var keepGeometry bool
 
 // mergeOutcomes merges two normal outcomes that forked from a common state with
 // entryLen path-condition conjuncts.
